@@ -1374,3 +1374,24 @@ def do_conf_bisect(req):
 
 
 HANDLERS.update({'conf_bytes': do_conf_bytes, 'conf_bisect': do_conf_bisect})
+
+
+def do_log_segment_case(req):
+    from pykdebugparser.os_log_event import OsLogEvent
+    strings = {0: 'msg', 1: 'proc', 2: 'img', 3: 'sub'}
+    seg = req['segment']
+    try:
+        out = OsLogEvent.parse_decomposed_segment(seg, strings)
+    except BaseException as ex:  # noqa
+        return {'violates': True, 'what': 'decoding the message segment %r raised %s: %s' % (seg, type(ex).__name__, ex)}
+    exp_keys = set()
+    if 'lp' in seg:
+        exp_keys.add('literal_prefix')
+    if 'p' in seg:
+        exp_keys.add('placeholder')
+    if 'a' in seg:
+        exp_keys.add('arg')
+    return {'violates': set(out) != exp_keys, 'what': 'segment %r decoded to %r' % (seg, out) if set(out) != exp_keys else '', 'decoded': repr(out)}
+
+
+HANDLERS.update({'log_segment_case': do_log_segment_case})
